@@ -1,8 +1,121 @@
+import Qentem.Model.Tmpl.Render
+import Qentem.Driver.Expr
 import Qentem.Driver.Proto
 namespace Qentem.Driver.Tmpl
-open Qentem.Driver
+open Qentem.Driver Qentem.Tmpl Qentem.Expr
 
-/-- Stub: replaced by the area's model driver. `op` is the first token of the line. -/
-def handle (_op : String) (_args : List String) : String := "bad-op"
+/-!
+Driver of the template model (C01/C02/C17).
+
+  tplrender <w> <doc> <units>   parse + render at `R := Float`  → `R <units>` | `F<fault>`
+  tpltags <w> <units>           parse only → a dump of the tag tree | `F<fault>`
+
+`<w>` (character width) is ignored by the model.  `<doc>`: comma-separated prefix code
+  u | z | t | f | n<dec> | i<signed dec> | s<u.u.u> (s alone = empty) | a<count> doc… |
+  o<count> (k<u.u.u> doc)…
+Real numbers are not rendered by this driver (`fmtReal` prints `?`), group/sort are not supported
+(`groupBy` gives no value, `sortDoc` is the identity): the generators avoid them.
+-/
+
+partial def parseDoc : List String → Option (Doc × List String)
+  | [] => none
+  | tok :: rest =>
+    match tok.toList with
+    | ['u'] => some (.undefined, rest)
+    | ['z'] => some (.null, rest)
+    | ['t'] => some (.tru, rest)
+    | ['f'] => some (.fals, rest)
+    | 'n' :: d => (String.ofList d).toNat?.map (fun n => (.nat n, rest))
+    | 'i' :: d => (String.ofList d).toInt?.map (fun n => (.int (ofInt n), rest))
+    | 's' :: d =>
+      if d.isEmpty then some (.str [], rest)
+      else (((String.ofList d).splitOn ".").mapM (fun (t : String) => t.toNat?)).map (fun u => (.str u, rest))
+    | 'a' :: d =>
+      match (String.ofList d).toNat? with
+      | none => none
+      | some n =>
+        let rec go (k : Nat) (acc : List Doc) (r : List String) : Option (Doc × List String) :=
+          if k = 0 then some (.arr acc.reverse, r)
+          else match parseDoc r with
+            | some (x, r') => go (k - 1) (x :: acc) r'
+            | none => none
+        go n [] rest
+    | 'o' :: d =>
+      match (String.ofList d).toNat? with
+      | none => none
+      | some n =>
+        let rec goObj (k : Nat) (acc : List (List Nat × Doc)) (r : List String) : Option (Doc × List String) :=
+          if k = 0 then some (.obj acc.reverse, r)
+          else match r with
+            | ktok :: r1 =>
+              match ktok.toList with
+              | 'k' :: kd =>
+                let key := if kd.isEmpty then some [] else
+                  (((String.ofList kd).splitOn ".").mapM (fun (t : String) => t.toNat?))
+                match key, parseDoc r1 with
+                | some key, some (x, r') => goObj (k - 1) ((key, x) :: acc) r'
+                | _, _ => none
+              | _ => none
+            | [] => none
+        goObj n [] rest
+    | _ => none
+
+def showFault : Fault → String
+  | .oobRead i n => s!"Foob:{i}/{n}"
+  | .fuel => "Ffuel"
+  | .divZero => "Fdiv0"
+  | .sremOverflow => "Fsrem"
+
+def scanCfg : ScanCfg Float := { readNum := Qentem.Driver.Expr.readNumFloat }
+
+def mkCtx (content : List Nat) (root : Doc) : RCtx Float where
+  content := content
+  root := root
+  readNum := Qentem.Driver.Expr.readNumFloat
+  realOfBits := fun b => Float.ofBits b.toUInt64
+  realBits := fun r => r.toBits.toNat
+  fmtReal := fun _ => [63]
+  groupBy := fun _ _ => none
+  sortDoc := fun d _ => d
+
+mutual
+partial def showTag : Tag Float → String
+  | .var v => s!"var({v.off},{v.len},{v.idLen},{v.level})"
+  | .raw v => s!"raw({v.off},{v.len},{v.idLen},{v.level})"
+  | .math ex off e => s!"math({off},{e},{ex.length})"
+  | .svar sub v off e => s!"svar({off},{e},{v.off},{v.len})[{showTags sub}]"
+  | .iif cs sub f =>
+    s!"iif({f.off},{f.len},{f.trueOff},{f.trueLen},{f.falseOff},{f.falseLen},{f.trueStart},{f.falseStart},{cs.length})[{showTags sub}]"
+  | .loop sub f =>
+    s!"loop({f.off},{f.endOff},{f.contentOff},{f.set.off},{f.set.len},{f.set.idLen},{f.set.level},{f.valueOff},{f.valueLen},{f.groupOff},{f.groupLen},{f.options},{f.level})[{showTags sub}]"
+  | .ifT cases off e => s!"if({off},{e})[{";".intercalate (cases.map showCase)}]"
+partial def showCase : IfCase Float → String
+  | .mk cs sub off e => s!"case({off},{e},{cs.length})[{showTags sub}]"
+partial def showTags (l : List (Tag Float)) : String := ";".intercalate (l.map showTag)
+end
+
+def handle (op : String) : List String → String
+  | [_w, ds, us] =>
+    if op == "tplrender" then
+      match parseDoc (ds.splitOn ","), parseNats us with
+      | some (root, []), some u =>
+        match parse scanCfg u with
+        | .error e => showFault e
+        | .ok tags =>
+          match renderTop (mkCtx u root) tags (4 * u.length + 100000) with
+          | .error e => showFault e
+          | .ok out => "R " ++ showNats out
+      | _, _ => "bad-op"
+    else "bad-op"
+  | [_w, us] =>
+    if op == "tpltags" then
+      match parseNats us with
+      | some u =>
+        match parse scanCfg u with
+        | .error e => showFault e
+        | .ok tags => "T " ++ showTags tags
+      | none => "bad-op"
+    else "bad-op"
+  | _ => "bad-op"
 
 end Qentem.Driver.Tmpl
